@@ -11,10 +11,13 @@ import (
 	"context"
 	"encoding/json"
 	"errors"
+	"flag"
 	"fmt"
 	"io"
 	"os"
+	"os/exec"
 	"path/filepath"
+	"sort"
 	"strings"
 	"time"
 
@@ -27,13 +30,14 @@ import (
 )
 
 type step struct {
-	Kind string `json:"k"` // open write conjoin prune rawupdate legacyprune
-	H    int    `json:"h"`
-	N    int    `json:"n,omitempty"`    // write: number of chunks
-	Hook string `json:"hook,omitempty"` // write: "lock" = nest inside manifest.Update; prune: "snap" | "lock"
-	In   []step `json:"in,omitempty"`
-	Bad  bool   `json:"bad,omitempty"` // rawupdate: name a table file that does not exist
-	Res  string `json:"res,omitempty"`
+	Kind  string `json:"k"` // open write conjoin prune rawupdate legacyprune
+	H     int    `json:"h"`
+	N     int    `json:"n,omitempty"`    // write: number of chunks
+	Hook  string `json:"hook,omitempty"` // write: "lock" = nest inside manifest.Update; prune: "snap" | "lock"
+	In    []step `json:"in,omitempty"`
+	Bad   bool   `json:"bad,omitempty"`   // rawupdate: name a table file that does not exist
+	Stale bool   `json:"stale,omitempty"` // write: do not Rebase first (the handle's lock may be stale)
+	Res   string `json:"res,omitempty"`
 }
 
 type kase struct {
@@ -51,6 +55,235 @@ type world struct {
 	depth  int
 	roots  map[hash.Hash]bool
 	crashN int
+
+	// trace conformance with the Lean ManFs model (nil when the case uses the store's background conjoin)
+	m      *hx.Model
+	ids    map[hash.Hash]int // table names, lock hashes, roots, gc generations → small ids (0 = empty hash)
+	tables map[string]bool   // table files the model knows about (by file name)
+	bad    bool              // a disagreement was already reported for this case
+	inHook bool
+}
+
+func (w *world) id(h hash.Hash) int {
+	if h.IsEmpty() {
+		return 0
+	}
+	if v, ok := w.ids[h]; ok {
+		return v
+	}
+	v := len(w.ids) + 1
+	w.ids[h] = v
+	return v
+}
+
+func (w *world) disagree(impl, model, note string) {
+	if w.bad {
+		return
+	}
+	w.bad = true
+	w.e.Rep.Disagree(w.c, impl, model, note)
+}
+
+func (w *world) ask(line, want, note string) string {
+	if w.m == nil || w.bad {
+		return want
+	}
+	got := w.m.Ask(line)
+	if want != "" && got != want {
+		w.disagree(want, got, note+" ["+line+"]")
+	}
+	return got
+}
+
+func specIDs(w *world, specs []nbs.VerifManSpec) []int {
+	out := make([]int, len(specs))
+	for i, sp := range specs {
+		out[i] = w.id(sp.Name)
+	}
+	return out
+}
+
+// tableFiles lists the table files (and archives) in the directory by address
+func (w *world) tableFiles() map[string]hash.Hash {
+	out := map[string]hash.Hash{}
+	ents, _ := os.ReadDir(w.dir)
+	for _, en := range ents {
+		n := en.Name()
+		n = strings.TrimSuffix(n, nbs.ArchiveFileSuffix)
+		if len(n) == 32 {
+			if h, ok := hash.MaybeParse(n); ok {
+				out[en.Name()] = h
+			}
+		}
+	}
+	return out
+}
+
+// syncLandings tells the model about table files that appeared (any process may land a table file at any
+// time: `land`); disappearances are never explained here — they must be a pruner's or a cleaner's unlink.
+func (w *world) syncLandings() {
+	if w.m == nil {
+		return
+	}
+	for name, h := range w.tableFiles() {
+		if !w.tables[name] {
+			w.tables[name] = true
+			w.ask(fmt.Sprintf("land %d", w.id(h)), "ok", "table file landed")
+		}
+	}
+}
+
+// removed reports (and forgets) the table files the model knows that are gone from the directory
+func (w *world) removed() []int {
+	var out []int
+	now := w.tableFiles()
+	for name := range w.tables {
+		if _, ok := now[name]; !ok {
+			delete(w.tables, name)
+			h, _ := hash.MaybeParse(strings.TrimSuffix(name, nbs.ArchiveFileSuffix))
+			out = append(out, w.id(h))
+		}
+	}
+	sort.Ints(out)
+	return out
+}
+
+// realDir renders the real directory the way the model driver renders its visible directory
+func (w *world) realDir() string {
+	m := "none"
+	if b, err := os.ReadFile(filepath.Join(w.dir, "manifest")); err == nil {
+		if mc, err := nbs.VerifManParse(b); err != nil {
+			m = "partial"
+		} else {
+			m = fmt.Sprintf("%d:%d:%d:%s", w.id(mc.Lock), w.id(mc.Root), w.id(mc.GCGen), hx.NatList(specIDs(w, mc.Specs)))
+		}
+	}
+	var ts []int
+	for _, h := range w.tableFiles() {
+		ts = append(ts, w.id(h))
+	}
+	sort.Ints(ts)
+	return fmt.Sprintf("m=%s t=%s", m, hx.NatList(ts))
+}
+
+func (w *world) conform(when string) {
+	if w.m == nil || w.bad {
+		return
+	}
+	w.syncLandings()
+	w.ask("dir", w.realDir(), "visible directory after "+when)
+	w.e.Rep.Hit("conform:dir-compared")
+}
+
+// tempManifest parses the newest temp manifest file in the directory (the one the Update in progress wrote)
+func (w *world) tempManifest() (nbs.VerifManContents, bool) {
+	ents, _ := os.ReadDir(w.dir)
+	var best string
+	var bestT time.Time
+	for _, en := range ents {
+		if strings.HasPrefix(en.Name(), "nbs_manifest_") {
+			if info, err := en.Info(); err == nil && (best == "" || info.ModTime().After(bestT)) {
+				best, bestT = en.Name(), info.ModTime()
+			}
+		}
+	}
+	if best == "" {
+		return nbs.VerifManContents{}, false
+	}
+	b, err := os.ReadFile(filepath.Join(w.dir, best))
+	if err != nil {
+		return nbs.VerifManContents{}, false
+	}
+	mc, err := nbs.VerifManParse(b)
+	return mc, err == nil
+}
+
+func (w *world) diskLock() hash.Hash {
+	b, err := os.ReadFile(filepath.Join(w.dir, "manifest"))
+	if err != nil {
+		return hash.Hash{}
+	}
+	mc, err := nbs.VerifManParse(b)
+	if err != nil {
+		return hash.Hash{}
+	}
+	return mc.Lock
+}
+
+// updTrace follows one caller of manifest.Update (commit, conjoin, raw update) through its write-hook firings:
+// at each firing the model's writer actor is spawned with what the temp file says and advanced to `synced`; when
+// the Update is over (next firing or return) it is run to its end and must leave the way the real one did.
+type updTrace struct {
+	w        *world
+	actor    int
+	firstLL  hash.Hash
+	fired    int
+	pending  bool
+	gc       bool
+	lastNew  nbs.VerifManContents
+	outcomes []string
+}
+
+func (u *updTrace) hook() {
+	w := u.w
+	if w.m == nil {
+		return
+	}
+	u.finish() // a previous Update of the same call (retry loop) is over
+	w.syncLandings()
+	nc, ok := w.tempManifest()
+	if !ok {
+		w.disagree("temp manifest complete", "unreadable", "at the write hook the temp manifest must be completely written")
+		return
+	}
+	ll := u.firstLL
+	if u.fired > 0 {
+		ll = w.diskLock()
+	}
+	u.fired++
+	u.lastNew = nc
+	flag := "upd"
+	if u.gc {
+		flag = "gc"
+	}
+	w.ask(fmt.Sprintf("wspawn %d %d %d %d %d %s %s", u.actor, w.id(ll), w.id(nc.Lock), w.id(nc.Root), w.id(nc.GCGen), hx.NatList(specIDs(w, nc.Specs)), flag), "ok", "spawn writer")
+	w.ask(fmt.Sprintf("wbegin %d", u.actor), "synced", "the real Update is at its write hook: LOCK held, temp written and synced")
+	w.ask("dir", w.realDir(), "visible directory at the write hook")
+	u.pending = true
+	w.e.Rep.Hit("conform:update-at-hook")
+}
+
+func (u *updTrace) finish() string {
+	w := u.w
+	if w.m == nil || !u.pending {
+		return ""
+	}
+	u.pending = false
+	got := w.ask(fmt.Sprintf("wfinish %d", u.actor), "", "")
+	u.outcomes = append(u.outcomes, got)
+	// what the real Update did is visible on disk: it wrote iff the manifest now carries the new lock
+	real := "nochange"
+	if w.diskLock() == u.lastNew.Lock {
+		real = "wrote"
+	}
+	model := got
+	if model != "wrote" {
+		model = "nochange"
+	}
+	if real != model {
+		w.disagree(real, got, "outcome of one manifest.Update")
+	}
+	w.e.Rep.Hit("conform:update-" + got)
+	// only the manifest is compared here: the caller may already have gone on (conjoin unlinks its conjoinees
+	// before it returns); the whole directory is compared after the step
+	if !w.bad {
+		md := strings.SplitN(w.m.Ask("dir"), " t=", 2)[0]
+		rd := strings.SplitN(w.realDir(), " t=", 2)[0]
+		if md != rd {
+			w.disagree(rd, md, "manifest after the Update")
+		}
+	}
+	return got
 }
 
 func (w *world) violate(key, what string) { w.e.Rep.Violate(key, what, w.c) }
@@ -229,8 +462,10 @@ func (w *world) do1(s *step) string {
 		if st == nil {
 			return "closed"
 		}
-		if err := st.Rebase(w.ctx); err != nil {
-			return "err rebase " + err.Error()
+		if !s.Stale {
+			if err := st.Rebase(w.ctx); err != nil {
+				return "err rebase " + err.Error()
+			}
 		}
 		last, _ := st.Root(w.ctx)
 		var c chunks.Chunk
@@ -240,22 +475,24 @@ func (w *world) do1(s *step) string {
 				return "err put " + err.Error()
 			}
 		}
-		if s.Hook == "lock" && w.depth == 0 {
-			fired := false
-			nbs.VerifManSetHooks(st, nil, func() error {
-				if !fired {
-					fired = true
-					old := w.currentRoot()
-					w.checkDir(w.dir, "inside-update before-rename")
-					w.crashCopy("inside manifest.Update (temp written, not renamed)", old)
-					w.nested(s.In, "update")
-				}
-				return nil
-			})
-			defer nbs.VerifManSetHooks(st, nil, nil)
-		}
+		u := &updTrace{w: w, actor: s.H % 3, firstLL: nbs.VerifManUpstream(st).Lock}
+		planned := s.Hook == "lock" && w.depth == 0
+		fired := false
+		nbs.VerifManSetHooks(st, nil, func() error {
+			u.hook()
+			if planned && !fired {
+				fired = true
+				old := w.currentRoot()
+				w.checkDir(w.dir, "inside-update before-rename")
+				w.crashCopy("inside manifest.Update (temp written, not renamed)", old)
+				w.nested(s.In, "update")
+			}
+			return nil
+		})
+		defer nbs.VerifManSetHooks(st, nil, nil)
 		before := w.currentRoot()
 		ok, err := st.Commit(w.ctx, c.Hash(), last)
+		u.finish()
 		if err != nil {
 			return "err commit " + err.Error()
 		}
@@ -290,7 +527,21 @@ func (w *world) do1(s *step) string {
 		if err := st.Rebase(w.ctx); err != nil {
 			return "err rebase " + err.Error()
 		}
+		u := &updTrace{w: w, actor: s.H % 3, firstLL: nbs.VerifManUpstream(st).Lock}
+		nbs.VerifManSetHooks(st, nil, func() error { u.hook(); return nil })
 		_, err := st.ConjoinTableFiles(w.ctx, nil)
+		nbs.VerifManSetHooks(st, nil, nil)
+		u.finish()
+		// the conjoin's cleanup unlinks the conjoinees without the manifest LOCK: the model's cleaner actor
+		if gone := w.removed(); len(gone) > 0 && w.m != nil {
+			a := 20 + s.H%3
+			w.ask(fmt.Sprintf("cspawn %d %s", a, hx.NatList(gone)), "ok", "conjoin cleanup")
+			for _, n := range gone {
+				w.ask(fmt.Sprintf("cunlink %d %d", a, n), "ok safe", "conjoin cleanup unlinks a conjoinee (no LOCK): must be enabled and CSafe")
+				w.e.Rep.Hit("conform:cleanup-unlink")
+			}
+			w.ask(fmt.Sprintf("retire %d", a), "ok", "")
+		}
 		if err != nil {
 			return "err " + firstLine(err)
 		}
@@ -300,22 +551,49 @@ func (w *world) do1(s *step) string {
 			return "closed"
 		}
 		w.age()
-		if w.depth == 0 && s.Hook != "" {
-			fired := false
-			f := func() {
-				if !fired {
-					fired = true
-					w.nested(s.In, "prune-"+s.Hook)
+		w.syncLandings()
+		pa := 10 + s.H%3
+		if w.m != nil {
+			up := nbs.VerifManUpstream(st)
+			w.ask(fmt.Sprintf("pspawn %d %s", pa, hx.NatList(specIDs(w, append(append([]nbs.VerifManSpec{}, up.Specs...), up.Appendix...)))), "ok", "spawn pruner")
+		}
+		planned := w.depth == 0 && s.Hook != ""
+		fired := false
+		snapFired, lockFired := false, false
+		oldA, oldU := nbs.VerifManSetPruneHooks(func() {
+			snapFired = true
+			w.ask(fmt.Sprintf("padv %d", pa), "snapped", "prune: candidate snapshot taken")
+			if planned && s.Hook == "snap" && !fired {
+				fired = true
+				w.nested(s.In, "prune-snap")
+			}
+		}, func() {
+			lockFired = true
+			w.ask(fmt.Sprintf("padv %d", pa), "locked", "prune: manifest LOCK taken")
+			w.ask(fmt.Sprintf("padv %d", pa), "keeping", "prune: manifest read under the LOCK, keep set built")
+			if planned && s.Hook == "lock" && !fired {
+				fired = true
+				w.nested(s.In, "prune-lock")
+			}
+		})
+		stats, err := st.PruneUnreferencedWithGrace(w.ctx, 10*time.Minute)
+		nbs.VerifManSetPruneHooks(oldA, oldU)
+		if w.m != nil {
+			gone := w.removed()
+			for _, n := range gone {
+				w.ask(fmt.Sprintf("punlink %d %d", pa, n), "ok", "the real pruner deleted this file: the model's pruner must be allowed to (in snapshot, outside keep, LOCK held)")
+				w.e.Rep.Hit("conform:prune-unlink")
+			}
+			if lockFired {
+				w.ask(fmt.Sprintf("padv %d", pa), "gone", "prune: unlock")
+			} else {
+				w.ask(fmt.Sprintf("pabort %d", pa), "ok", "")
+				if len(gone) > 0 {
+					w.disagree(fmt.Sprint(gone), "[]", "files disappeared during a prune that never took the LOCK")
 				}
 			}
-			if s.Hook == "snap" {
-				nbs.VerifManSetPruneHooks(f, nil)
-			} else {
-				nbs.VerifManSetPruneHooks(nil, f)
-			}
-			defer nbs.VerifManSetPruneHooks(nil, nil)
+			_ = snapFired
 		}
-		stats, err := st.PruneUnreferencedWithGrace(w.ctx, 10*time.Minute)
 		if err != nil {
 			return "err " + firstLine(err)
 		}
@@ -346,7 +624,19 @@ func (w *world) do1(s *step) string {
 			nc.Specs = append(nc.Specs, nbs.VerifManSpec{Name: w.mkChunk().Hash(), Count: 1})
 		}
 		nc.Lock = nbs.VerifManLockHash(nc.Root, nc.Specs, nil, []byte(fmt.Sprint(w.next)))
-		got, err := fm.Update(w.ctx, cur.Lock, nc, nil)
+		u := &updTrace{w: w, actor: 30 + s.H%3, firstLL: cur.Lock}
+		got, err := fm.Update(w.ctx, cur.Lock, nc, func() error { u.hook(); return nil })
+		if mo := u.finish(); mo != "" {
+			real := "wrote"
+			if err != nil && errors.Is(err, nbs.ErrManifestSpecMissingTableFile) {
+				real = "invalid"
+			} else if err != nil || got.Lock != nc.Lock {
+				real = "stale"
+			}
+			if mo != real {
+				w.disagree(real, mo, "raw fileManifest.Update outcome")
+			}
+		}
 		if err != nil {
 			if s.Bad && errors.Is(err, nbs.ErrManifestSpecMissingTableFile) {
 				return "rejected-missing-file"
@@ -389,7 +679,7 @@ func genNested(r *hx.Rng, outer int) []step {
 }
 
 func gen(r *hx.Rng) *kase {
-	c := &kase{MaxTables: hx.Pick(r, []int{3, 4, 6, 256})}
+	c := &kase{MaxTables: hx.Pick(r, []int{4, 256, 256, 256})}
 	c.Steps = append(c.Steps, step{Kind: "open", H: 0}, step{Kind: "open", H: 1})
 	n := r.Range(6, 22)
 	for i := 0; i < n; i++ {
@@ -398,7 +688,7 @@ func gen(r *hx.Rng) *kase {
 		case x < 8:
 			c.Steps = append(c.Steps, step{Kind: "open", H: h})
 		case x < 55:
-			s := step{Kind: "write", H: h, N: r.Intn(4)}
+			s := step{Kind: "write", H: h, N: r.Intn(4), Stale: r.Chance(1, 4)}
 			if r.Chance(1, 3) {
 				s.Hook = "lock"
 				s.In = genNested(r, h)
@@ -426,13 +716,27 @@ func run(e *hx.Env, c *kase, n int) {
 	dir := filepath.Join(e.Scratch, fmt.Sprintf("c05-%d", n))
 	os.RemoveAll(dir)
 	os.MkdirAll(dir, 0o755)
-	w := &world{e: e, ctx: context.Background(), dir: dir, c: c, roots: map[hash.Hash]bool{}}
+	w := &world{e: e, ctx: context.Background(), dir: dir, c: c, roots: map[hash.Hash]bool{}, ids: map[hash.Hash]int{}, tables: map[string]bool{}}
+	if theModel != nil && c.MaxTables >= 256 {
+		// with the background conjoin goroutine off, the step trace of the run is deterministic: replay it on the model
+		w.m = theModel
+		w.m.Ask("reset")
+		e.Rep.Hit("case:trace-conformance")
+	} else {
+		e.Rep.Hit("case:oracle-only(background conjoin)")
+	}
 	nt := false
 	var sb strings.Builder
 	for i := range c.Steps {
 		s := &c.Steps[i]
 		w.do(s)
 		w.checkDir(dir, "after "+s.Kind)
+		w.conform(s.Kind)
+		if w.m != nil && !w.bad {
+			if imgs := w.m.Ask("crashimgs"); strings.Contains(imgs, "BAD") {
+				w.disagree("every crash image good", imgs, "the model itself produced a bad crash image (contradicts durable_refs_present)")
+			}
+		}
 		e.Rep.Hit("step:" + s.Kind + ":" + strings.SplitN(s.Res, " ", 2)[0])
 		fmt.Fprintf(&sb, "%s%d%s:%s;", s.Kind, s.H, s.Hook, strings.SplitN(s.Res, " ", 2)[0])
 		for _, in := range s.In {
@@ -457,9 +761,211 @@ func run(e *hx.Env, c *kase, n int) {
 	e.Rep.TracesValidated++
 }
 
+var theModel *hx.Model
+
+// legacyPruneWitness replays on the real code the point `refs_present_inv` excludes (`StepSafe`): an unlink that
+// does not take the manifest LOCK.  A handle that has not rebased runs the legacy PruneTableFiles after another
+// handle's commit: it deletes the table file the manifest names.  Reported as a note + counter, not as a
+// violation: the property's quantifier names the grace prune; the coordinator decides whether it is a finding.
+func legacyPruneWitness(e *hx.Env) {
+	dir := filepath.Join(e.Scratch, "legacy-prune")
+	os.RemoveAll(dir)
+	os.MkdirAll(dir, 0o755)
+	defer os.RemoveAll(dir)
+	ctx := context.Background()
+	q := nbs.NewUnlimitedMemQuotaProvider()
+	stale, err := nbs.NewLocalStore(ctx, constants.FormatDoltString, dir, 1<<12, q, false)
+	if err != nil {
+		return
+	}
+	defer stale.Close()
+	wr, err := nbs.NewLocalStore(ctx, constants.FormatDoltString, dir, 1<<12, q, false)
+	if err != nil {
+		return
+	}
+	defer wr.Close()
+	c := chunks.NewChunk([]byte("legacy-prune-witness-chunk"))
+	wr.Put(ctx, c, noRefs)
+	ok, err := wr.Commit(ctx, c.Hash(), hash.Hash{})
+	if err != nil || !ok {
+		return
+	}
+	w := &world{e: e, ctx: ctx, dir: dir, c: &kase{}, ids: map[hash.Hash]int{}, tables: map[string]bool{}}
+	if theModel != nil {
+		w.m = theModel
+		w.m.Ask("reset")
+		w.syncLandings()
+		b, _ := os.ReadFile(filepath.Join(dir, "manifest"))
+		mc, _ := nbs.VerifManParse(b)
+		w.m.Ask(fmt.Sprintf("wspawn 0 0 %d %d %d %s upd", w.id(mc.Lock), w.id(mc.Root), w.id(mc.GCGen), hx.NatList(specIDs(w, mc.Specs))))
+		w.m.Ask("wbegin 0")
+		w.m.Ask("wfinish 0")
+	}
+	perr := stale.PruneTableFiles(ctx)
+	b, _ := os.ReadFile(filepath.Join(dir, "manifest"))
+	mc, _ := nbs.VerifManParse(b)
+	missing := 0
+	for _, sp := range mc.Specs {
+		if ex, _ := nbs.VerifManTableFileOrArchiveExists(dir, sp.Name); !ex {
+			missing++
+		}
+	}
+	modelSays := ""
+	if w.m != nil {
+		gone := w.removed()
+		w.m.Ask(fmt.Sprintf("cspawn 20 %s", hx.NatList(gone)))
+		for _, n := range gone {
+			modelSays = w.m.Ask(fmt.Sprintf("cunlink 20 %d", n))
+		}
+		if (missing > 0) != strings.Contains(modelSays, "UNSAFE") {
+			e.Rep.Disagree("legacy-prune-witness", fmt.Sprint(missing > 0), modelSays, "the model's CSafe must fail exactly when the real unlocked unlink breaks the manifest")
+		}
+	}
+	if missing > 0 {
+		e.Rep.Hit("witness:legacy-PruneTableFiles-by-stale-handle-deletes-referenced-file")
+		e.Rep.Note(fmt.Sprintf("WITNESS (excluded by StepSafe, reproduced on the implementation): handle A opens an empty dir; handle B Put+Commit (manifest names table T); A.PruneTableFiles() (err=%v) unlinks T without the manifest LOCK: the manifest now names %d missing file(s); model: cunlink -> %q", perr, missing, modelSays))
+	} else {
+		e.Rep.Note("legacy-prune witness did NOT reproduce on this tree")
+	}
+}
+
+// unorderedCrashWitness: the point `durable_refs_present` (ordered-metadata crash model) excludes.  The real
+// trace of one commit: the table file is renamed into place, the manifest is renamed over `manifest`, then the
+// directory is fsynced once.  If the file system may persist the second rename without the first, the durable
+// image is {directory entries of the last directory fsync} + {new manifest}: built here from the real files and
+// opened with the real code.  Note + counter (file-system dependent), not a violation.  With strace available the
+// absence of a directory fsync between the two renames is confirmed on the syscall trace of a child process.
+func unorderedCrashWitness(e *hx.Env) {
+	dir := filepath.Join(e.Scratch, "unordered-crash")
+	os.RemoveAll(dir)
+	os.MkdirAll(dir, 0o755)
+	defer os.RemoveAll(dir)
+	ctx := context.Background()
+	st, err := nbs.NewLocalStore(ctx, constants.FormatDoltString, dir, 1<<12, nbs.NewUnlimitedMemQuotaProvider(), false)
+	if err != nil {
+		return
+	}
+	c1 := chunks.NewChunk([]byte("unordered-crash-1"))
+	st.Put(ctx, c1, noRefs)
+	st.Commit(ctx, c1.Hash(), hash.Hash{})
+	durable := map[string]bool{} // directory entries as of the directory fsync that ended the first commit
+	ents, _ := os.ReadDir(dir)
+	for _, en := range ents {
+		durable[en.Name()] = true
+	}
+	c2 := chunks.NewChunk([]byte("unordered-crash-2"))
+	st.Put(ctx, c2, noRefs)
+	ok, _ := st.Commit(ctx, c2.Hash(), c1.Hash())
+	st.Close()
+	if !ok {
+		return
+	}
+	img := filepath.Join(e.Scratch, "unordered-crash-img")
+	os.RemoveAll(img)
+	os.MkdirAll(img, 0o755)
+	defer os.RemoveAll(img)
+	ents, _ = os.ReadDir(dir)
+	for _, en := range ents {
+		if en.Name() == "LOCK" || (!durable[en.Name()] && en.Name() != "manifest") {
+			continue // a rename that was not followed by a directory fsync of its own: lost in this image
+		}
+		b, _ := os.ReadFile(filepath.Join(dir, en.Name()))
+		os.WriteFile(filepath.Join(img, en.Name()), b, 0o644)
+	}
+	b, _ := os.ReadFile(filepath.Join(img, "manifest"))
+	mc, _ := nbs.VerifManParse(b)
+	missing := 0
+	for _, sp := range mc.Specs {
+		if ex, _ := nbs.VerifManTableFileOrArchiveExists(img, sp.Name); !ex {
+			missing++
+		}
+	}
+	_, oerr := nbs.NewLocalStore(ctx, constants.FormatDoltString, img, 1<<12, nbs.NewUnlimitedMemQuotaProvider(), false)
+	if missing > 0 {
+		e.Rep.Hit("witness:unordered-crash-image-names-missing-table-file")
+		e.Rep.Note(fmt.Sprintf("WITNESS (excluded by the ordered-metadata assumption of durable_refs_present; Lean: durable_refs_present_subset_refuted): durable image = entries of the previous directory fsync + the renamed manifest: manifest names %d missing table file(s); opening it with NewLocalStore: %v", missing, oerr))
+	}
+}
+
+// straceWitness: hook-free second witness for the order of the directory operations of one commit: runs this
+// binary as a child (`-childcommit dir`) under strace and checks that between the rename that lands the table
+// file and the rename over `manifest` the directory is never opened for an fsync, and that it is fsynced after.
+func straceWitness(e *hx.Env) {
+	path, err := exec.LookPath("strace")
+	if err != nil {
+		e.Rep.Note("strace not available: syscall-order witness skipped")
+		return
+	}
+	dir := filepath.Join(e.Scratch, "strace-commit")
+	os.RemoveAll(dir)
+	os.MkdirAll(dir, 0o755)
+	defer os.RemoveAll(dir)
+	out := filepath.Join(e.Scratch, "strace.out")
+	defer os.Remove(out)
+	self, _ := os.Executable()
+	cmd := exec.Command(path, "-f", "-o", out, "-e", "trace=openat,rename,renameat,renameat2,fsync", self, "-childcommit", dir)
+	if err := cmd.Run(); err != nil {
+		e.Rep.Note("strace run failed: " + err.Error())
+		return
+	}
+	b, _ := os.ReadFile(out)
+	var events []string // T = table rename, M = manifest rename, D = dir opened (for fsync), F = fsync
+	for _, ln := range strings.Split(string(b), "\n") {
+		switch {
+		case strings.Contains(ln, "rename") && strings.Contains(ln, "/manifest\""):
+			events = append(events, "M")
+		case strings.Contains(ln, "rename") && strings.Contains(ln, "nbs_table_"):
+			events = append(events, "T")
+		case strings.Contains(ln, "openat(") && strings.Contains(ln, "\""+dir+"\""):
+			events = append(events, "D")
+		case strings.Contains(ln, "fsync("):
+			events = append(events, "F")
+		}
+	}
+	tr := strings.Join(events, "")
+	ti, mi := strings.Index(tr, "T"), strings.LastIndex(tr, "M")
+	switch {
+	case ti < 0 || mi < 0 || mi < ti:
+		e.Rep.Note("strace witness: unexpected trace shape " + tr)
+	case strings.Contains(tr[ti:mi], "DF"):
+		e.Rep.Disagree("strace-witness", tr, "no dir fsync between T and M", "the directory is fsynced between the table-file rename and the manifest rename: Tie.table_file_landing / the model's pending list no longer describe the code")
+	case !strings.Contains(tr[mi:], "DF"):
+		e.Rep.Disagree("strace-witness", tr, "dir fsync after M", "no directory fsync after the manifest rename")
+	default:
+		e.Rep.Hit("strace:table-rename..manifest-rename-without-dir-fsync,then-dir-fsync")
+		e.Rep.Note("strace witness: syscall order of one commit (T table rename, M manifest rename, D open dir, F fsync): " + tr)
+	}
+}
+
+func childCommit(dir string) {
+	ctx := context.Background()
+	st, err := nbs.NewLocalStore(ctx, constants.FormatDoltString, dir, 1<<12, nbs.NewUnlimitedMemQuotaProvider(), false)
+	if err != nil {
+		os.Exit(3)
+	}
+	c := chunks.NewChunk([]byte("strace-child-chunk"))
+	st.Put(ctx, c, noRefs)
+	if ok, err := st.Commit(ctx, c.Hash(), hash.Hash{}); err != nil || !ok {
+		os.Exit(4)
+	}
+	st.Close()
+}
+
 func main() {
+	child := flag.String("childcommit", "", "internal: perform one commit in this directory and exit (run under strace)")
+	for i, a := range os.Args {
+		if a == "-childcommit" && i+1 < len(os.Args) {
+			childCommit(os.Args[i+1])
+			return
+		}
+	}
+	_ = child
 	e := hx.Init("manifestfs", "C05")
 	defer e.Finish()
+	if e.ModelBin != "" {
+		theModel = e.MustModel()
+		defer theModel.Close()
+	}
 	e.Rep.Rule = "seeded step sequences of writers (put+commit), conjoin, grace prune, raw manifest updates (2/3 naming a missing file) over 3 real handles on one directory; other actors' steps nested inside manifest.Update (under the LOCK) and at both prune hooks; crash images copied at every write-hook yield and after every commit; distinct = different (step, handle, hook, result) sequence; non-trivial = at least one step executed inside a hook"
 	n := 0
 	for _, raw := range e.CorpusCases() {
@@ -481,7 +987,10 @@ func main() {
 		run(e, &c, n)
 		return
 	}
-	total := e.N(60, 2000)
+	legacyPruneWitness(e)
+	unorderedCrashWitness(e)
+	straceWitness(e)
+	total := e.N(60, 1000)
 	for i := 0; i < total; i++ {
 		run(e, gen(e.Rng.Fork()), n)
 		n++
